@@ -1875,6 +1875,7 @@ def cache_history_model(repo, depth=3):
         ops = ['edit a', 'edit b', 'touch a', 'restore a', 'request a', 'request b', 'failing request a', 'create c', 'request c']
         bad = []
         bad_deps = []
+        second = []
         unstable = []
         n = 0
 
@@ -1890,6 +1891,12 @@ def cache_history_model(repo, depth=3):
                     unstable.append(name)
                 r = it.getattr(m, 'scope')
                 r = ('analysis of', r.attrs.get('text'), r.attrs.get('deps')) if isinstance(r, Obj) else r
+                # the second lookup of the request is answered from the per-request table
+                r2 = it.getattr(m2, 'scope')
+                r2 = ('analysis of', r2.attrs.get('text'), r2.attrs.get('deps')) if isinstance(r2, Obj) else r2
+                path2 = '<S>/%s.py' % name
+                if not fail and path2 in it.fs and r2[:2] != ('analysis of', it.files[path2]):
+                    second.append((name, r2[:2], it.files[path2]))
                 if fail:
                     raise InterpRaise('SyntaxError', 'the request fails after its module was validated')
             except InterpRaise as e:
@@ -1974,6 +1981,10 @@ def cache_history_model(repo, depth=3):
                                                                              bad_deps[0][3]) if bad_deps else ('', '', '', '')),
                     'a re-saved importer sees the current exporter'))
         out.append(('history-count', 'histories explored', n >= 100, 'only %d histories' % n, None))
+        out.append(('second-lookup', 'the per-request table only holds modules valid for this request', not second,
+                    'the second get_module(%r) of one request (answered from the per-request table) served %s while the file reads %r: '
+                    'a module that did not pass the validity test was remembered for the rest of the request'
+                    % (second[0] if second else ('', '', '')), 'both lookups of a request serve the current content'))
         out.append(('identity', 'a module keeps its identity within one request', not unstable,
                     'two consecutive get_module(%r) calls inside one change-checking context returned different module objects: the '
                     're-entrancy guards of the evaluator compare nodes by identity, so an import cycle between freshly saved modules '
